@@ -399,3 +399,20 @@ def make_callable(flavour, rec: Recorder, name, sem=None):
 
         return CallObj()
     raise ValueError(flavour)
+
+
+class Aw:
+    """A user awaitable wrapping a value: logs when it is awaited (C19)."""
+
+    def __init__(self, rec: Recorder, value, label=None):
+        self.rec, self.value, self.label = rec, value, label
+
+    def __await__(self):
+        rec = self.rec
+        yield from suspend(rec.acct, ("aw",), rec.susp).__await__()
+        x = jsonify(self.label if self.label is not None else self.value)
+        if rec.use("await", "aw"):
+            rec.ev(ev="await", x=x, res="raise")
+            raise rec.fault_exc
+        rec.ev(ev="await", x=x, res="ret")
+        return self.value
